@@ -16,6 +16,10 @@ impl VerifDisplay for str {
 impl VerifDisplay for String {
     open spec fn disp(&self) -> Seq<char> { self@ }
 }
+// `{}` of an unsigned integer prints its decimal rendering (`decimal` is uninterpreted; only injectivity is assumed)
+impl VerifDisplay for usize {
+    open spec fn disp(&self) -> Seq<char> { decimal(*self as nat) }
+}
 impl<'a> VerifDisplay for Cow<'a, str> {
     open spec fn disp(&self) -> Seq<char> { cow_text(*self) }
 }
